@@ -27,13 +27,16 @@ for d in sorted(glob.glob('/verif/seeded/*/meta.json')):
     vs = [f'{c}: {verdict(r)}' for c, r in rs]
     caught = any('caught' in v for v in vs)
     tot += 1; det += caught
+    if 'history' not in m and m.get('check_result') and not re.match(r'C\d\d: ', m['check_result']):
+        m['history'] = m['check_result']  # how the checks fared when the change was first tried
     m['check_result'] = '; '.join(vs) if vs else m.get('check_result', '')
     m['ran'] = 'tools/sweep_seeded.sh (tools/try_mutant.sh: the quick check against a scratch worktree of /repo HEAD with the patch applied)'
     json.dump(m, open(d, 'w'), indent=1)
     needs = m.get('needs_to_manifest', '').replace('|', '/').replace('\n', ' ')
     if len(needs) > 260: needs = needs[:260].rsplit(' ', 1)[0] + ' ...'
     what = m.get('what', '')
-    rows.append(f"| {sid} | {what + ': ' if what else ''}{needs} | {m['check_result'] or m.get('check_result','')} |")
+    hist = m.get('history', '').replace('|', '/')
+    rows.append(f"| {sid} | {what + ': ' if what else ''}{needs} | {m['check_result']}{' — first try: ' + hist if hist else ''} |")
 hdr = f"""# Seeded changes
 
 Each directory holds `patch.diff` (applies to /repo at the commit the checks are registered against:
